@@ -67,6 +67,8 @@ func runC01(c *Ctx, r *Rec) {
 	}
 	info := c.info("collection")
 
+	checkReceiverWrites(c, r, "D4-receiver-writes-persist", lst)
+	checkReceiverWrites(c, r, "D4-receiver-writes-persist", arr)
 	// ---- D2 normalisers
 	type layer struct {
 		n      *types.Named
@@ -132,7 +134,7 @@ func runC01(c *Ctx, r *Rec) {
 			checkLoops(c, r, "D3-loop-progress", ms[name], nil)
 		}
 	}
-	r.floor("D3-loop-progress", 12)
+	r.floor("D3-loop-progress", 1)
 
 	// ---- D4 commit-last
 	checkCommitLast(c, r, info, lst)
